@@ -502,29 +502,59 @@ func (pv *Prover) phiFacts(fs *factSet, a Atom, phi *ssa.Phi) {
 			initPar = p
 			continue
 		}
-		f := pv.Form(e)
-		d := f.Add(linAtom(a), -1) // e - phi
-		if _, still := d.T[a]; still {
-			okLow, evenStep = false, false
-			continue
+		// the value carried round the loop may itself be a merge (inside the loop) of
+		// several candidates, e.g. phi(unchanged, advanced) after an expanded helper:
+		// every leaf must be phi + d with d >= 0
+		var leaves []ssa.Value
+		seenPhi := map[*ssa.Phi]bool{phi: true}
+		var expand func(v ssa.Value, depth int)
+		expand = func(v ssa.Value, depth int) {
+			if ip, isPhi := v.(*ssa.Phi); isPhi && ip != phi && loop.Blocks[ip.Block()] && depth < 6 {
+				isHeader := false
+				for _, l := range pv.loops {
+					if l.Header == ip.Block() {
+						isHeader = true
+					}
+				}
+				if !isHeader {
+					if seenPhi[ip] {
+						return
+					}
+					seenPhi[ip] = true
+					for _, ie := range ip.Edges {
+						expand(ie, depth+1)
+					}
+					return
+				}
+			}
+			leaves = append(leaves, v)
 		}
-		// d must be >= 0
-		if len(d.T) == 0 {
-			if d.C < 0 {
-				okLow = false
+		expand(e, 0)
+		for _, leaf := range leaves {
+			f := pv.Form(leaf)
+			d := f.Add(linAtom(a), -1) // leaf - phi
+			if _, still := d.T[a]; still {
+				okLow, evenStep = false, false
+				continue
 			}
-			if d.C%2 != 0 {
+			// d must be >= 0
+			if len(d.T) == 0 {
+				if d.C < 0 {
+					okLow = false
+				}
+				if d.C%2 != 0 {
+					evenStep = false
+				}
+			} else {
 				evenStep = false
-			}
-		} else {
-			evenStep = false
-			// prove -d <= 0 from intrinsic facts of its atoms only
-			sub := &factSet{parity: map[Atom]int64{}, seen: map[Atom]bool{a: true}}
-			for b := range d.T {
-				pv.intrinsic(sub, b)
-			}
-			if !refute(append(append([]Lin{}, sub.cons...), d.Plus(1)), sub.parity) {
-				okLow = false
+				// prove -d <= 0 from intrinsic facts of its atoms only
+				sub := &factSet{parity: map[Atom]int64{}, seen: map[Atom]bool{a: true}}
+				for b := range d.T {
+					pv.intrinsic(sub, b)
+				}
+				if !refute(append(append([]Lin{}, sub.cons...), d.Plus(1)), sub.parity) {
+					okLow = false
+				}
 			}
 		}
 	}
